@@ -277,6 +277,23 @@ def run_config(cfg: dict, root: Path, tag: str) -> dict:
         lf = log_path(root, tag, cfg, exe, inst)
         exe.set_max_fes(int(cfg["budget"]), True).set_rand_seed(int(cfg["seed"])).set_log_file(str(lf))
         res: dict = {"err": None, "log": str(lf), "algo": str(exe._algorithm)}
+        # every evaluation the run hands to its objective, in order (the process binds `objective.evaluate` when it is
+        # created, so an instance attribute is what it calls): two runs with the same seed are the same SEQUENCE, and
+        # where they are not, some shorter budget separates their results (see `prefix_budget`)
+        seq: list = []
+        obj = exe._objective
+        if cfg["kind"] != "ttpmo" and hasattr(obj, "evaluate"):
+            orig_eval = obj.evaluate
+
+            def recording(x, _o=orig_eval, _s=seq):
+                f = _o(x)
+                _s.append([jsonable(np.array(x, copy=True)) if isinstance(x, np.ndarray) else repr(x)[:2000], jsonable(f)])
+                return f
+            try:
+                obj.evaluate = recording
+            except AttributeError:
+                pass
+        res["seq"] = seq
         try:
             with time_limit(cfg.get("time_limit", 0)), exe.execute() as p:
                 res["has_best"] = bool(p.has_best())
@@ -359,6 +376,22 @@ def error_key(cfg: dict, r: dict) -> str:
             and "cmaes_lib.py:solve" in fr and "string_conv.py:num_to_str" in fr):
         return "control_run_raises"
     return "run_raises"
+
+
+def prefix_budget(sa: list, sb: list):
+    """smallest number k of evaluations after which the best objective value seen so far differs between the two
+    recorded sequences (None if there is none): a run with budget k ends exactly there"""
+    best_a = best_b = None
+    for k in range(1, min(len(sa), len(sb)) + 1):
+        fa, fb = sa[k - 1][1], sb[k - 1][1]
+        try:
+            best_a = fa if best_a is None or fa < best_a else best_a
+            best_b = fb if best_b is None or fb < best_b else best_b
+        except TypeError:
+            return None
+        if best_a != best_b and k >= 2:
+            return k
+    return None
 
 
 CMP_FIELDS = ("err", "has_best", "f", "fes", "li", "x", "y", "nbins", "fs", "archive")
@@ -656,6 +689,36 @@ def streams(ck: Check) -> None:
                 break
         diff = differences(a, b)
         ck.spec(not diff, key_rep, f"{kind}/{cfg.get('setup', 'cmaes')}: two runs with the same seed differ: " + "; ".join(diff)[:400], case)
+        if not diff and a["err"] is None and a.get("seq") != b.get("seq"):
+            # same final result, but the two runs did not evaluate the same candidates: find the budget at which the
+            # best-so-far of the two sequences differs and RUN that budget twice - only real runs are a verdict
+            ck.count(f"evaluation_sequences_differ:{kind}")
+            k = prefix_budget(a["seq"], b["seq"])
+            if k is None:
+                # no prefix separates them yet: give the diverging runs room (a larger budget, still run twice each)
+                found = False
+                for extra in (4, 8, 16):
+                    c2 = dict(cfg, budget=int(cfg["budget"]) + extra)
+                    a2, b2 = run_config(c2, root, "A2"), run_config(c2, root, "B2")
+                    if a2.get("timeout") or b2.get("timeout"):
+                        break
+                    d2 = differences(a2, b2)
+                    ck.count(f"diverging_sequences_rerun:{kind}")
+                    if d2:
+                        found = True
+                        ck.spec(False, key_rep, f"{kind}/{cfg.get('setup', 'cmaes')}: two runs with the same seed and budget "
+                                f"{c2['budget']} differ: " + "; ".join(d2)[:400], short(c2))
+                        break
+                if not found:
+                    ck.notes.append(f"{kind}/{cfg.get('setup', 'cmaes')}: two runs with the same seed evaluated different "
+                                    f"candidates but their results agree up to budget {int(cfg['budget']) + 16} (no verdict): "
+                                    f"{json.dumps(case)}")
+            else:
+                c2 = dict(cfg, budget=k)
+                a2, b2 = run_config(c2, root, "A2"), run_config(c2, root, "B2")
+                d2 = differences(a2, b2)
+                ck.spec(not d2, key_rep, f"{kind}/{cfg.get('setup', 'cmaes')}: two runs with the same seed and budget {k} "
+                        f"differ: " + "; ".join(d2)[:400], short(c2))
         line = json.dumps(cfg, sort_keys=True)
         if line in by_line:
             ck.count("third_run_in_fresh_interpreter")
